@@ -21,13 +21,15 @@ func registerC14() {
 			"two-byte preimage computed with the bit-serial reference (every (state, byte) pair is one distinct non-trivial case); family streaming: PRNG byte strings " +
 			"(length 0..5000) x PRNG write partitions, compared with the reference, also fed through io.Copy / io.CopyN from short-reading and data-with-EOF readers, Reset, residue and Sum(nil); distinct by string digest; family long-writes: for each of the " +
 			"65536 register states s and block offsets 0/4/8/.../28 one single Write of >= 64 bytes that drives the register to s and then feeds it s itself followed by zero bytes " +
-			"(the input on which multi-byte-at-a-time and zero-skipping implementations go wrong), compared with the reference and with a byte-wise feed",
+			"(the input on which multi-byte-at-a-time and zero-skipping implementations go wrong), compared with the reference and with a byte-wise feed; family lengths: single writes of 30 KB - 1.3 MB whose length (and whose halves, thirds, " +
+			"quarters and eighths) sit at and around multiples of 32767 - the order of x modulo the CRC polynomial, where implementations that split a write and combine partial sums wrap - plus PRNG long lengths, from PRNG starting states",
 		Assume:        []string{"the bit-serial reference CRC-16/ARC (12 lines, checked against the catalogue check value 0xBB3D) is the specification"},
 		MinNontrivial: 1 << 24,
 		Families: []lib.Family{
 			{Name: "transitions", N: func(string) uint64 { return 256 }, Run: c14Transitions},
 			{Name: "streaming", N: func(t string) uint64 { return tierN(t, 20000, 2000000) }, Run: c14Streaming},
 			{Name: "long-writes", N: func(string) uint64 { return 256 }, Run: c14LongWrites},
+			{Name: "lengths", N: func(t string) uint64 { return tierN(t, 260, 2600) }, Run: c14Lengths},
 		},
 		Exhaustive: func(string) bool { return true },
 	})
@@ -228,4 +230,52 @@ func c14LongWrites(c *lib.Ctx, idx uint64) {
 		c.NontrivialN(n)
 	}
 	c.Count("long_writes", n)
+}
+
+// c14Lengths: long single writes at lengths where split-and-combine implementations wrap.
+func c14Lengths(c *lib.Ctx, idx uint64) {
+	rng := lib.NewRand("C14.lengths", idx)
+	var n int
+	if idx%13 == 12 {
+		n = 30000 + rng.Intn(900000)
+	} else {
+		parts := []int{1, 2, 3, 4, 8}[idx%5]
+		mult := 1 + int(idx/5)%4
+		base := []int{32767, 65535, 32768, 65536}[int(idx/20)%4]
+		n = base*mult*parts + []int{0, -1, 1, -2, 2, 3, -3}[int(idx/80)%7]
+		for n > 1400000 {
+			n -= base
+		}
+	}
+	d := rng.Bytes(n)
+	c.SetInflight(d[:minInt(n, 64)])
+	// a PRNG starting state through a short first write
+	pre := rng.Bytes(rng.Intn(3))
+	want := ref.CRC(append(append([]byte{}, pre...), d...))
+	h := dyncrc16.New()
+	h.Write(pre)
+	h.Write(d)
+	c.Eval()
+	if got := h.Sum16(); got != want {
+		c.Violation(d[:minInt(n, 4096)], "one Write of %d bytes (after a %d-byte write): got %#04x, CRC-16/ARC gives %#04x", n, len(pre), got, want)
+		return
+	}
+	if len(pre) == 0 {
+		if got := dyncrc16.Checksum(d); got != want {
+			c.Violation(d[:minInt(n, 4096)], "Checksum of %d bytes: got %#04x, CRC-16/ARC gives %#04x", n, got, want)
+			return
+		}
+	}
+	// the same bytes in two writes split at a PRNG point
+	k := rng.Intn(n)
+	g := dyncrc16.New()
+	g.Write(pre)
+	g.Write(d[:k])
+	g.Write(d[k:])
+	if g.Sum16() != want {
+		c.Violation(d[:minInt(n, 4096)], "%d bytes written as %d + %d: got %#04x, CRC-16/ARC gives %#04x", n, k, n-k, g.Sum16(), want)
+		return
+	}
+	c.Count("long_lengths", 1)
+	c.Nontrivial([]byte(fmt.Sprint(n)), d[:minInt(n, 256)])
 }
